@@ -139,3 +139,30 @@ func H_C03_isolation() {
 	}
 	vxrt.Assert(vxrt.Eq(readFile(path), want), "C03:file-is-frames-in-order")
 }
+
+// H_C03_lookalike: an earlier entry whose body has a line that merely contains or ends with
+// another slot's header (not a whole line equal to it: that is known finding K2) does not
+// capture that slot; and two spellings of the same directory address the same file and share
+// the ordinals.
+func H_C03_lookalike() {
+	vxrt.CI(false)
+	vxrt.EnvFixed("NO_COLOR", "1")
+	dir := vxrt.Dir()
+	path := dir + "/f.snap"
+	decoy := []string{"see [TestB - 1]", " [TestB - 1]", "[TestB - 1] x", "[TestB - 10]", "x[TestB - 1]", "[TestB - 1", "TestB - 1]"}[vxrt.Choice("decoy-line", 7)]
+	bodyA := "first\n" + decoy + "\nnot-b"
+	writeFile(path, frame("TestA - 1", bodyA)+frame("TestB - 1", "vb")+frame("TestB - 2", "vb2"))
+	before := readFile(path)
+	spell := []string{dir, dir + "/", dir + "/.", dir + "/x/.."}
+	c1 := WithConfig(Dir(spell[0]), Filename("f"), Update(false))
+	c2 := WithConfig(Dir(spell[vxrt.Choice("second-spelling", 4)]), Filename("f"), Update(false))
+	ta, tb := newT("TestA"), newT("TestB")
+	c1.MatchSnapshot(tb, "vb")
+	c2.MatchSnapshot(tb, "vb2")
+	c2.MatchSnapshot(ta, bodyA)
+	ta.end()
+	tb.end()
+	vxrt.Assert(len(tb.errors) == 0 && len(tb.logs) == 0, "C03:kth-call-addresses-slot-k")
+	vxrt.Assert(len(ta.errors) == 0 && len(ta.logs) == 0, "C03:other-entry-value-unchanged")
+	vxrt.Assert(readFile(path) == before, "C03:file-unchanged-by-passing-calls")
+}
